@@ -27,6 +27,7 @@ theorem collect_congr {rec1 rec2 : Frame → Out} {P : Prog} {wh : Where} :
     cases u with
     | pop n d => simp only [collect]; exact ih' _
     | get n d => simp only [collect]; exact ih' _
+    | popIn n d => simp only [collect]; exact ih' _
     | superCall frm k g =>
       simp only [collect]
       cases hs : superFrame P wh frm with
@@ -58,6 +59,7 @@ theorem collect_ne_nofuel {rec : Frame → Out} {P : Prog} {wh : Where} :
     cases u with
     | pop n d => simp only [collect]; exact ih' _
     | get n d => simp only [collect]; exact ih' _
+    | popIn n d => simp only [collect]; exact ih' _
     | superCall frm k g =>
       simp only [collect]
       cases hs : superFrame P wh frm with
@@ -276,6 +278,7 @@ theorem sub_of_whereOK {P : Prog} {wh : Where} {c : Callable} {M : Nat} (hw : wh
   cases u with
   | pop n d => simp [subFrame] at hs
   | get n d => simp [subFrame] at hs
+  | popIn n d => simp [subFrame] at hs
   | superCall frm k g =>
     cases wh with
     | fn => simp [subFrame, superFrame] at hs
